@@ -653,8 +653,20 @@ def oC05 (st : OState) (v : OpView) (c : Ctx) : List String :=
         -- a multi-cluster write may use up the last clusters before it fails: judge the state it left
         -- create_dir needs up to two clusters at once (its own first cluster and one to grow the parent) and gives
         -- the first back when the second cannot be had: with a single free cluster NotEnoughSpace is legitimate
-        let needsTwo := c.op == "create_dir" && free ≤ 1
-        if free == 0 || freeAfter == 0 || rootFull || needsTwo then []
+        -- in general a directory operation may need one cluster per `clusterSize/32` slots of the new entry
+        -- (ceil(units/13) long-name slots + 1; worst case the whole entry lands in new clusters), plus the new
+        -- directory's own cluster: with fewer free clusters than that NotEnoughSpace is legitimate
+        let lastUnits : Nat := match c.op, c.args with
+          | "create_dir", [_, p, _] | "create_file", [_, p, _] | "rename", [_, _, _, p] =>
+            (match textOf p with
+             | some t => (Names.encodeUtf16 (((t.splitOn "/").filter (· != "")).getLastD "").toList).length
+             | none => 0)
+          | _, _ => 0
+        let slots := (lastUnits + 12) / 13 + 1
+        let perCluster := max 1 (g.clusterSize / 32)
+        let needed := (if c.op == "create_dir" then 1 else 0) + (if lastUnits == 0 then 0 else (slots + perCluster - 1) / perCluster)
+        let needsMore := ["create_dir", "create_file", "rename"].contains c.op && free < needed
+        if free == 0 || freeAfter == 0 || rootFull || needsMore then []
         else [s!"C05 nospace-unsound op={c.op} free-before={free} free-after={freeAfter}"]
       else []
     let main :=
